@@ -22,6 +22,23 @@ type symCtx struct {
 	phis  map[*ssa.Phi]ssa.Value // resolved phi edges on the current path
 	P     *Prog                  // optional: fields are printed by their canonical role
 	names map[ssa.Value]string   // optional: names for the function's parameters
+	targs map[string]types.Type  // optional: type arguments of the generic helper the code lives in, by parameter name
+}
+
+// typeStr prints a type with the type parameters of an enclosing generic helper replaced by the
+// arguments it was instantiated with at the call we are looking through.
+func (sc *symCtx) typeStr(t types.Type) string {
+	if len(sc.targs) > 0 {
+		if tp, ok := types.Unalias(t).(*types.TypeParam); ok {
+			if a, ok := sc.targs[tp.Obj().Name()]; ok {
+				return typeStr(a)
+			}
+		}
+		if p, ok := t.(*types.Pointer); ok {
+			return "*" + sc.typeStr(p.Elem())
+		}
+	}
+	return typeStr(t)
 }
 
 func (sc *symCtx) fieldName(f *types.Var) string {
@@ -111,14 +128,14 @@ func (sc *symCtx) sym(v ssa.Value, depth int) string {
 	case *ssa.Function:
 		return fname(x)
 	case *ssa.TypeAssert:
-		return fmt.Sprintf("%s.(%s)", sc.sym(x.X, depth+1), typeStr(x.AssertedType))
+		return fmt.Sprintf("%s.(%s)", sc.sym(x.X, depth+1), sc.typeStr(x.AssertedType))
 	case *ssa.Extract:
 		switch t := x.Tuple.(type) {
 		case *ssa.TypeAssert:
 			if x.Index == 0 {
-				return fmt.Sprintf("%s.(%s)", sc.sym(t.X, depth+1), typeStr(t.AssertedType))
+				return fmt.Sprintf("%s.(%s)", sc.sym(t.X, depth+1), sc.typeStr(t.AssertedType))
 			}
-			return fmt.Sprintf("ok(%s.(%s))", sc.sym(t.X, depth+1), typeStr(t.AssertedType))
+			return fmt.Sprintf("ok(%s.(%s))", sc.sym(t.X, depth+1), sc.typeStr(t.AssertedType))
 		case *ssa.Next:
 			switch x.Index {
 			case 0:
@@ -152,7 +169,7 @@ func (sc *symCtx) sym(v ssa.Value, depth int) string {
 		}
 		return sc.sym(x.X, depth+1)
 	case *ssa.Convert:
-		return typeStr(x.Type()) + "(" + sc.sym(x.X, depth+1) + ")"
+		return sc.typeStr(x.Type()) + "(" + sc.sym(x.X, depth+1) + ")"
 	case *ssa.MakeInterface:
 		return sc.sym(x.X, depth+1)
 	case *ssa.ChangeInterface:
@@ -353,6 +370,10 @@ func (P *Prog) predicateShape1(fn *ssa.Function, env map[ssa.Value]ssa.Value) pr
 }
 
 func (P *Prog) predicateShape2(fn *ssa.Function, env map[ssa.Value]ssa.Value, names map[ssa.Value]string) predShape {
+	return P.predicateShape3(fn, env, names, nil)
+}
+
+func (P *Prog) predicateShape3(fn *ssa.Function, env map[ssa.Value]ssa.Value, names map[ssa.Value]string, targs map[string]types.Type) predShape {
 	var sh predShape
 	loops := naturalLoops(fn)
 	if len(loops) > 1 {
@@ -366,6 +387,7 @@ func (P *Prog) predicateShape2(fn *ssa.Function, env map[ssa.Value]ssa.Value, na
 	if names != nil {
 		sc.P, sc.names = P, names
 	}
+	sc.targs = targs
 	spec := &pathSpec{name: "formula", inlineAll: true, symbolicLoopPhis: true}
 	spec.keep = func(f *ssa.Function) bool {
 		if f.Parent() != nil {
